@@ -211,7 +211,7 @@ func searchShapeJobs(tier string) []Job {
 func init() {
 	propMeta["C04"] = PropMeta{
 		Bounds: map[string]interface{}{
-			"quick":    "L-num: ALL uint32 values and counts (bit-vectors); L-quad: ALL finite doubles with midpoints unconstrained; Search==filter with nondeterministic stop and ANY non-NaN query rectangle (infinities included): series of 0..8 points, open / closed / closed with repeated point, no index and single-node compressed R-tree and quadtree (real constants), threshold below/at/above; moved series n = 4; multi-node trees with node constants scaled down by a source overlay regenerated from the current qtree.go/rtree.go: quadtree (2 items, depth 2) on 3..4 points, every tree shape; R-tree (2 entries) on 3..4 points",
+			"quick":    "L-num: ALL uint32 values and counts (bit-vectors); L-quad: ALL finite doubles with midpoints unconstrained; Search==filter with nondeterministic stop and ANY non-NaN query rectangle (infinities included): series of 0..8 points, open / closed / closed with repeated point, no index and single-node compressed R-tree and quadtree (real constants), threshold below/at/above; moved series n = 4; multi-node trees with node constants scaled down by a source overlay regenerated from the current qtree.go/rtree.go: quadtree (2 items, depth 2) on 3..4 points, every tree shape; R-tree (2 entries) on 3..4 points; a concrete 40-point line moved by 2^52 / 2^51 / 8 (rounding additions, IEEE arithmetic on constants)",
 			"thorough": "series up to 16 points (R-tree) / 32 (quadtree) single node; quadtree shapes on 5 points",
 		},
 		Outside:     []string{"multi-node trees with the real constants (more than 32 / 16 segments) symbolically: covered only through the scaled-constant configurations", "4-byte item encodings (> 65535 segments): covered by L-num only", "order-independence of the predicates under permuted report order (not built)"},
@@ -257,6 +257,11 @@ func init() {
 			out = append(out, Job{Pkg: "geometry", Harness: "H_Search_Template", Params: []int{t[0], t[1], t[2]}, Timeout: 120, Unwind: 600, NoCover: t[1] != 257,
 				Note: "S-template: concrete layout, real node constants (multi-level trees, depth-limit buckets, 2-byte item encodings), every query rectangle"})
 		}
+		// a concrete line moved by a delta that makes the additions round (IEEE arithmetic on constants)
+		for _, ke := range [][2]int{{2, 52}, {1, 52}, {2, 3}, {2, 51}} {
+			out = append(out, Job{Pkg: "geometry", Harness: "H_Search_MovedTemplate", Params: []int{ke[0], ke[1]}, Timeout: 120, Unwind: 600, IntBound: 1 << 53, NoCover: ke[1] != 3,
+				Note: "moved S-template: 40 concrete points, root quadtree node split, Move by 2^e"})
+		}
 		out = append(out, searchShapeJobs(tier)...)
 		return out
 	}
@@ -265,7 +270,7 @@ func init() {
 func init() {
 	propMeta["C11"] = PropMeta{
 		Bounds: map[string]interface{}{
-			"quick":    "all 11 non-Circle kinds built with the public constructors: Point, SimplePoint, LineString of 0..5 points, Polygon 3..5 + hole 0/3/4, Rect, MultiPoint 0..3, MultiLineString (lines of 0..3 points, empties mixed in), MultiPolygon, GeometryCollection and FeatureCollection of [point, line, polygon with hole, nested collection [rect, empty line]], single-child collection, Feature; ALL real coordinate values (comparisons are exact for every finite double; -0 == +0 numerically)",
+			"quick":    "all 11 non-Circle kinds built with the public constructors: Point, SimplePoint, LineString of 0..5 points, Polygon 3..5 + hole 0/3/4 with and without the repeated closing position, Rect, MultiPoint 0..3, MultiLineString (lines of 0..3 points, empties mixed in), MultiPolygon, GeometryCollection and FeatureCollection of [point, line, polygon with hole, nested collection [rect, empty line]], single-child collection, Feature; ALL real coordinate values (comparisons are exact for every finite double; -0 == +0 numerically)",
 			"thorough": "lines to 8 points, polygons to 8+5",
 		},
 		Outside:     []string{"Circle (its rectangle is trigonometric: C13, not applicable)", "objects built by Parse (gjson)", "more children / deeper nesting than listed", "Center is compared with the same (min+max)/2 expression evaluated exactly: float rounding of the midpoint is not modelled"},
@@ -289,6 +294,7 @@ func init() {
 		for _, ab := range [][2]int{{3, 0}, {4, 0}, {4, 3}, {5, 4}, {2, 0}, {0, 0}} {
 			add(3, ab[0], ab[1])
 			add(11, ab[0], ab[1])
+			add(12, ab[0], ab[1])
 		}
 		if tier == "thorough" {
 			add(3, 8, 5)
@@ -399,6 +405,19 @@ func apiJobs(tier string) []Job {
 		params = append(append([]int{0}, ringParams(notched)...), ringParams(round16)...)
 		out = append(out, Job{Pkg: "geometry", Harness: "H_API_PolyLineT", Params: params, Timeout: 120, Scale: true, Contracts: c})
 	}
+	// polygons with holes against polygons: intersects in both orders, contains (hole boundary contact excluded)
+	holeTri := []ipt{{2, 2}, {6, 2}, {2, 6}}
+	big8 := []ipt{{0, 0}, {8, 0}, {8, 8}, {0, 8}}
+	diamond := []ipt{{1, 0}, {2, 1}, {1, 2}, {0, 1}}
+	for i, b := range [][]ipt{diamond, sq1, tri} {
+		params := append(append(append([]int{0}, ringParams(big8)...), ringParams(holeTri)...), ringParams(b)...)
+		out = append(out, Job{Pkg: "geometry", Harness: "H_API_PolyPolyHole", Params: params, Timeout: 120, Scale: true, Contracts: c, NoCover: i > 0})
+	}
+	// two holes against a polygon with a hole (axis-aligned rectangles, general position), both hole orders
+	for order := 0; order <= 1; order++ {
+		out = append(out, Job{Pkg: "geometry", Harness: "H_API_HolesRect", Params: []int{order, 20, 12, 3, 4, 5, 6, 13, 4, 15, 6, 18, 10, 11, 2, 15, 6}, Timeout: 120, Scale: true, Contracts: []string{fnRaycast, fnSegSeg}, NoCover: order > 0})
+		out = append(out, Job{Pkg: "geometry", Harness: "H_API_HolesRect", Params: []int{order, 20, 12, 3, 4, 5, 6, 13, 4, 15, 6, 9, 6, 2, 1, 6, 5}, Timeout: 120, Scale: true, Contracts: []string{fnRaycast, fnSegSeg}, NoCover: true})
+	}
 	for i, r := range []([]ipt){tri, curatedRings[0], curatedRings[1]} {
 		params := append([]int{0, 1, 1}, ringParams(r)...)
 		out = append(out, Job{Pkg: "geometry", Harness: "H_API_Rect", Params: params, Timeout: 120, Scale: true, Contracts: c, NoCover: i > 0})
@@ -423,20 +442,20 @@ func filterLabels(jobs []Job) []Job { return jobs }
 func init() {
 	shared := PropMeta{
 		Outside: []string{"both operands fully symbolic at once (z3 does not decide triangle-vs-triangle within minutes): one operand is always a concrete lattice shape (leaf jobs: every simple triangle on [0,2]^2 plus curated concave shapes; thorough adds every simple quadrilateral on [0,2]^2 and triangle on [0,3]^2) and the other is a fully symbolic segment / line, or a concrete shape under an arbitrary real translation",
-			"polygon-with-holes versus polygon (hole-versus-hole oracle not validated): holes are exercised against points and lines only",
+			"polygon-with-holes versus polygon-with-holes only for axis-aligned rectangles in general position (H_API_HolesRect); the general hole-versus-hole oracle is not validated",
 			"API-level jobs replace ringContainsSegment / ringIntersectsSegment by their leaf oracles (contract mode): the real leaf code is decided by the leaf jobs, with the listed known findings"},
 		Stubs:       []string{"Segment.Raycast, Segment.IntersectsSegment -> specs (proved in-run by H_K_Raycast, H_K_SegSeg path-wise, H_K_SpecSym)", "ringContainsSegment / ringIntersectsSegment -> leaf oracles in the API-level jobs only", "segment-pair box lemma instances assumed (proved in-run by H_K_SegSegBox)"},
 		Assumptions: append(append([]string{}, commonAssumptions...), "the leaf oracles (DESIGN Appendix C) are adequate for simple rings: validated at design time against arrangement-based references on 140 000 random lattice cases (design/oracle_*_validation.py)"),
 	}
 	m2 := shared
 	m2.Bounds = map[string]interface{}{
-		"quick":    "leaf ringIntersectsSegment(closed): 106 concrete rings x ALL real segments; API: polygon (6 shapes, one with a hole, three index kinds) x symbolic line of 2..3 points; 6 polygon pairs and 3 polygon-rect pairs under ALL real translations; rect x symbolic line; line x line with 2..3 points each fully symbolic; both operand orders",
+		"quick":    "leaf ringIntersectsSegment(closed): 106 concrete rings x ALL real segments; API: polygon (6 shapes, one with a hole, three index kinds) x symbolic line of 2..3 points; 6 polygon pairs, a notched ring x 16-point inner shape, 3 polygon-with-hole x polygon pairs and 3 polygon-rect pairs under ALL real translations; rect x symbolic line; line x line with 2..3 points each fully symbolic; both operand orders",
 		"thorough": "leaf family extended to every simple lattice quadrilateral on [0,2]^2 and triangle on [0,3]^2 (about 700 rings); 10 polygon pairs",
 	}
 	propMeta["C02"] = m2
 	m3 := shared
 	m3.Bounds = map[string]interface{}{
-		"quick":    "leaf ringContainsSegment (closed and open) and ringIntersectsSegment(open): 106 concrete rings x ALL real segments, strict outside the listed contact classes; API composition: polygon contains line / polygon / rect, rect contains line / polygon, line contains line (6 concrete lines x symbolic lines of 2..3 points)",
+		"quick":    "leaf ringContainsSegment (closed and open) and ringIntersectsSegment(open): 106 concrete rings x ALL real segments, strict outside the listed contact classes; API composition: polygon contains line / polygon / rect (also >= 16-point inner shapes, a polygon with a hole containing a polygon, two holes against a polygon with a hole on rectangles in general position), rect contains line / polygon, line contains line (6 concrete lines x symbolic lines of 2..3 points)",
 		"thorough": "as C02 thorough",
 	}
 	propMeta["C03"] = m3
@@ -489,7 +508,7 @@ func init() {
 func init() {
 	propMeta["C10"] = PropMeta{
 		Bounds: map[string]interface{}{
-			"quick":    "MultiPoint / MultiLineString / MultiPolygon / GeometryCollection / FeatureCollection with 0..3 fixed children (empties, duplicates, a nested collection, mixed kinds) x probe objects Point / LineString / Polygon / Rect / GeometryCollection under ALL real translations x child-index threshold 0, 1, 2, 3 (off, always, exact count, count+1); child search with nondeterministic stop; tidwall/rtree executed from its SSA",
+			"quick":    "MultiPoint / MultiLineString / MultiPolygon / GeometryCollection / FeatureCollection with 0..3 fixed children (empties, duplicates, a nested collection, mixed kinds) x probe objects Point / LineString / Polygon / Rect / GeometryCollection (with an empty part in the middle, last or first) under ALL real translations x child-index threshold 0, 1, 2, 3 (off, always, exact count, count+1); child search with nondeterministic stop; tidwall/rtree executed from its SSA",
 			"thorough": "same",
 		},
 		Outside:     []string{"children with symbolic coordinates (children are fixed shapes; the probe moves)", "more than 3 children, so the child R-tree is a single leaf", "Circle children"},
@@ -505,8 +524,11 @@ func init() {
 				ncfg = 4
 			}
 			for cfg := 0; cfg < ncfg; cfg++ {
-				for pk := 0; pk <= 4; pk++ {
+				for pk := 0; pk <= 6; pk++ {
 					for idx := 0; idx <= 3; idx++ {
+						if pk >= 5 && idx > 1 {
+							continue
+						}
 						out = append(out, Job{Pkg: "geojson", Harness: "H_Coll", Params: []int{ctype, cfg, pk, idx}, Timeout: 120, Scale: true, Contracts: c, NoCover: pk+idx > 0})
 					}
 				}
@@ -624,7 +646,7 @@ func init() {
 func init() {
 	propMeta["C12"] = PropMeta{
 		Bounds: map[string]interface{}{
-			"quick":    "one operand a concrete simple ring (6 curated shapes incl. concave ones, both index kinds on two of them), the other a fully symbolic two-point line (ALL real coordinates): intersects / contains-point / contains-line (outside the C03 contact classes) are unchanged by translation with an ARBITRARY real offset (also through Move), scaling by 2 and 1/2, reflection in either axis and across the diagonal, half turn; and by re-encoding the ring: every start vertex, both directions, closing vertex kept or dropped; line reversal",
+			"quick":    "one operand a concrete simple ring (6 curated shapes incl. concave ones, both index kinds on two of them), the other a fully symbolic two-point line (ALL real coordinates): intersects / contains-point / contains-line (outside the C03 contact classes) are unchanged by translation with an ARBITRARY real offset (also through Move, for closed and unclosed encodings), scaling by 2 and 1/2, reflection in either axis and across the diagonal, half turn; and by re-encoding the ring: every start vertex, both directions, closing vertex kept or dropped; line reversal",
 			"thorough": "adds every simple lattice triangle on [0,2]^2 for the transformations",
 		},
 		Outside:     []string{"both operands symbolic", "contains-line in boundary-contact configurations (C03 known findings: the answer can be wrong there and then depends on the encoding)", "scaling by other powers of two (the code is homogeneous; only 2 and 1/2 are executed)", "polygon-polygon pairs"},
